@@ -317,7 +317,7 @@ def rx_passes(pid, tier):
         return [('pattern ASTs up to %d nodes over 9 atom pools (2-3 atoms; * + ? {0,1,2,3,10,12} group cat alt); strings<=%d over byte-class representatives; pair BFS over all 256 bytes' % (4 if q else 5, 4),
                  ['--mode', 'c03', '--K', '4' if q else '5', '--maxlen', '4'])]
     if pid == 'C04':
-        P = [('ordered term sets of size<=2 from a pool of %d term specs x inputs<=%d over {a,b,c,space,\\n,\\t,\\r,\\v,\\f,NUL} x 3 whitespace option combinations; plus a one-dimensional sweep of lexeme lengths 255..200000 for two term sets' % (12 if q else 30, 4 if q else 5),
+        P = [('ordered term sets of size<=2 from a pool of %d term specs x inputs<=%d over {a,b,c,space,\\n,\\t,\\r,\\v,\\f,NUL} x 4 whitespace option combinations; plus a one-dimensional sweep of lexeme lengths 255..200000 for two term sets' % (12 if q else 30, 4 if q else 5),
               ['--mode', 'c04', '--setsize', '2', '--pool', '0' if q else '1', '--maxlen', '4' if q else '5'])]
         if not q: P.append(('ordered term sets of size 3 from the 12-spec pool x inputs<=4', ['--mode', 'c04', '--setsize', '3', '--pool', '0', '--maxlen', '4']))
         P.append(('ordered term sets of size 4..6 from a pool of %d mutually overlapping term specs (six-slot list grammar: more terms end in one automaton state than it has slots for) x inputs<=%d over {a,b,c,space}' % (8 if q else 10, 3 if q else 4),
@@ -326,7 +326,7 @@ def rx_passes(pid, tier):
                   ['--mode', 'c04w', '--setsize', '6', '--pool', '2', '--maxlen', '3' if q else '5']))
         return P
     if pid == 'C10':
-        return [('5 term sets (single-char, multi-char, multi-line lexemes, over-reading lexer) x 2 grammars (token list; statements with an error rule) x inputs<=%d over {x,q,;,space,\\t,\\r,\\n,\\v,\\f,0x80} x 3 whitespace option combinations' % (5 if q else 7),
+        return [('5 term sets (single-char, multi-char, multi-line lexemes, over-reading lexer) x 2 grammars (token list; statements with an error rule) x inputs<=%d over {x,q,;,space,\\t,\\r,\\n,\\v,\\f,0x80} x 4 whitespace option combinations' % (5 if q else 7),
                  ['--mode', 'c10', '--maxlen', '5' if q else '7'])]
     if pid == 'C17':
         P = [('every string of length<=%d over a 21-symbol pattern alphabet offered as a pattern' % (4 if q else 5), ['--mode', 'c17', '--maxlen', '4' if q else '5'])]
